@@ -115,6 +115,8 @@ func pxBase() *chain.Node {
 		for b := 0; b < 4; b++ {
 			n.BeginBlock(chain.BlockIn{Proposer: b})
 			send(pxOther, banktypes.NewMsgSend(pxOther.Addr, pxW.Addr, sdk.NewCoins(islm(1))))
+			// fees collected in a second denomination (as IBC-denominated fees would be): rewards hold two denominations
+			must(app.BankKeeper.SendCoinsFromAccountToModule(n.Ctx(), pxOther.Addr, authtypes.FeeCollectorName, sdk.NewCoins(sdk.NewCoin("uxmpl", sdkmath.NewInt(3_000_000_000)))))
 			n.EndBlockCommit()
 		}
 		if route, msg, broken := checkInvariants(n); broken {
